@@ -482,6 +482,15 @@ ElementsOut(name, x) ==
          LET a == at(1, 256)
              b == at(257, 256)
          IN SHA!Sha256(TapTag("5461704272616e63682f656c656d656e7473") \o (IF Lt(a, b) THEN a \o b ELSE b \o a))
+(* An output as the specification writes it: the padding bits of sums are zero.  What the machine leaves in padding
+   positions is not part of a value (C05: results do not depend on padding), so an observed output is brought into this
+   form before it is compared: contexts are re-written from their parsed content, an absent option is all zeros. *)
+CtxOut(name) == name \in {"sha_256_ctx_8_init", "tapdata_init", "sha_256_ctx_8_add_buffer_511", "outpoint_hash", "asset_amount_hash", "nonce_hash", "annex_hash"}
+                \/ CtxAddN(name) > 0
+ZeroPadding(name, out) ==
+  IF CtxOut(name) THEN WriteCtx(ReadCtx(out))
+  ELSE IF name \in {"fe_square_root", "decompress", "parse_sequence", "gej_normalize"} /\ out[1] = 0 THEN ZerosN(Len(out))
+  ELSE out
 JetKnown(name) == JetKnownFlat(name) \/ JetKnownHash(name) \/ name \in FieldOps \/ name \in ElementsOps
 JetOut(name, x) == IF JetKnownHash(name) THEN HashOut(name, x) ELSE IF name \in FieldOps THEN FieldOut(name, x)
                    ELSE IF name \in ElementsOps THEN ElementsOut(name, x) ELSE FlatOut(name, x)
